@@ -551,11 +551,14 @@ public:
         // no simple zip in C++, falling back to indices
         for (size_t i = 0; i < exposed.size(); ++i) {
             exposed_[i](row, col) -= exposed[i];
+            total_exposed_(row, col) -= exposed[i];
         }
 
         // Possibly reuse in the I->S removal.
-        if (infected <= 0)
+        if (infected <= 0) {
+            reset_total_host(row, col);
             return;
+        }
         if (mortality_tracker_vector_.size() != mortality.size()) {
             throw std::invalid_argument(
                 "mortality is not the same size as the internal mortality tracker ("
